@@ -286,7 +286,7 @@ Theorem C05_unused_sound_stage2 : forall bi ns p, u2_block p = true -> star_free
 Proof. exact u2_unused_sound. Qed.
 Print Assumptions C05_unused_sound_stage2.
 
-(* what the fragment excludes: a function-local import read by a nested function that is defined before it (F35) *)
+(* what the fragment excludes: a function-local import read by a nested function that is defined before it (C05a) *)
 Theorem C05_unused_sound_refuted_local_import :
   ~ unused_sound_at [SDef 1 90 [] (Params [] [] None [] None [] []) None
                        [SDef 2 91 [] (Params [] [] None [] None [] []) None [SExpr 3 (ELoad 92 [])];
